@@ -9,6 +9,7 @@
 import Gama.Lemmas.AdjRes
 import Gama.Lemmas.AdjResCov
 import Gama.Lemmas.AdjResExamples
+import Gama.Lemmas.AdjResAlloc
 set_option maxRecDepth 20000
 namespace Gama.Props.C11
 open Gama Gama.AdjRes Gama.AdjRes.Ex
@@ -63,6 +64,31 @@ theorem C11_adjres_cov_fill_in_bounds (evs : List Event) :
   have h := run_covWf evs St.init init_covWf
   ⟨h.2.2, h.1, h.2.1⟩
 
+/-- allocation is bounded by what the input announced: every `adj->cov.reset(dim, band)` the reader executes — for EVERY event
+    sequence — allocates at most (adjusted unknowns read so far)·(band+1) elements, `unknowns` = orientations pushed + non-zero
+    adjustment indexes of the adjusted points pushed so far (log `allocs` = (elements, unknowns at that moment, band)).
+    Needs: the guard of `band(false)` contains `tmp_dim > unknowns` (generated `covGuardUnknowns`, fix 3e87ff8) and every
+    `covReset` stands right behind that guard (`resets_guarded`, `decide` on the generated handler bodies).  Before the fix
+    `<dim>2147483647</dim><band>0</band>` allocated and cleared 16 GB before any `<flt>` was seen. -/
+theorem C11_adjres_dim_bounded_by_unknowns (evs : List Event) :
+    ∀ a ∈ (run St.init evs).allocs, (a.1 : Int) ≤ (a.2.1 : Int) * (a.2.2 + 1) ∧ 0 ≤ a.2.2 :=
+  run_allocInv evs St.init init_allocInv
+
+/-- non-vacuity: three adjusted unknowns announced (one point with x, y, z): `dim 2 band 1` allocates 3 ≤ 3·2 elements;
+    `dim 2147483647 band 0` and `dim 4 band 0` are refused (located) and allocate nothing; with no adjusted point even `dim 1`
+    is refused; an orientation counts as one unknown -/
+example :
+    (run St.init (toCovMat ++ leaf "dim" "2" ++ leaf "band" "1")).allocs = [(3, 3, 1)] ∧
+    (run St.init (toCovMat ++ leaf "dim" "2" ++ leaf "band" "1")).unknowns = 3 ∧
+    (run St.init (toCovMat ++ leaf "dim" "2147483647" ++ leaf "band" "0")).allocs = [(0, 3, 0)] ∧
+    (run St.init (toCovMat ++ leaf "dim" "2147483647" ++ leaf "band" "0")).err =
+      some (36, .e_bad_dimension_or_bandwidth_of_covariance) ∧
+    (run St.init (toCovMat ++ leaf "dim" "4" ++ leaf "band" "0")).err = some (36, .e_bad_dimension_or_bandwidth_of_covariance) ∧
+    (run St.init (toCovMat ++ leaf "dim" "3" ++ leaf "band" "0")).err = none ∧
+    (run St.init (toCovMatNoPoints ++ leaf "dim" "1" ++ leaf "band" "0")).err =
+      some (22, .e_bad_dimension_or_bandwidth_of_covariance) ∧
+    covGuardUnknowns = true := by decide
+
 /-! ### non-vacuity -/
 
 /-- a complete document with a 2×2 band-1 covariance matrix (3 elements) is accepted: `s_stop`, no error, the three
@@ -83,25 +109,25 @@ example :
 example :
     let evs := toCovMat ++ leaf "dim" "2" ++ leaf "band" "0" ++ leaf "flt" "4" ++ [.stop]
     (run St.init evs).state = .error_ ∧
-    (run St.init evs).err = some (26, .e_bad_number_of_elements_in_covariance_mat) ∧ (run St.init evs).writes = [(0, 2)] := by
+    (run St.init evs).err = some (40, .e_bad_number_of_elements_in_covariance_mat) ∧ (run St.init evs).writes = [(0, 2)] := by
   decide
 
 /-- a bad `<flt>` literal: `error()` is recorded, yet the handler goes on and the element IS stored (inside the storage) -/
 example :
     let evs := toCovMat ++ leaf "dim" "1" ++ leaf "band" "0" ++ leaf "flt" "x"
-    (run St.init evs).err = some (25, .e_float_syntax_error) ∧ (run St.init evs).writes = [(0, 1)] ∧
+    (run St.init evs).err = some (39, .e_float_syntax_error) ∧ (run St.init evs).writes = [(0, 1)] ∧
     (run St.init evs).state = .error_ := by decide
 
 /-- band ≥ dim is refused and the storage is emptied: later `<flt>` elements store nothing -/
 example :
     let evs := toCovMat ++ leaf "dim" "2" ++ leaf "band" "2" ++ leaf "flt" "1" ++ leaf "flt" "1"
-    (run St.init evs).err = some (22, .e_bad_dimension_or_bandwidth_of_covariance) ∧ (run St.init evs).writes = [] ∧
+    (run St.init evs).err = some (36, .e_bad_dimension_or_bandwidth_of_covariance) ∧ (run St.init evs).writes = [] ∧
     (run St.init evs).covSize = 0 := by decide
 
 /-- an unknown tag deep in the document: refused, located at that event, never overwritten; an end tag with nothing
     open (only possible if expat were bypassed) is an error too, not a crash -/
 example :
-    (run St.init (toCovMat ++ [.start "bogus" [], .text "x".toList, .stop, .stop])).err = some (17, .e_unknown_tag) ∧
+    (run St.init (toCovMat ++ [.start "bogus" [], .text "x".toList, .stop, .stop])).err = some (31, .e_unknown_tag) ∧
     (run St.init [.stop]).err = some (0, .e_illegal_context_or_unknown_tag) := by decide
 
 /-- attribute checks: wrong namespace value, unknown attribute -/
